@@ -81,7 +81,12 @@ TAddND == /\ IsEvent("add_nd")
 TNewInvalid == /\ IsEvent("new_invalid") /\ Ev.panicked
                /\ UNCHANGED <<pp, cnt, pos, des>>
 
-TNext == TNew \/ TSmall \/ TAdd \/ TAddND \/ TNewInvalid
+\* Quantile::new(p) for a valid p - down to the smallest subnormal, up to the predecessor of 1 - must not
+\* panic, the estimator is empty and p() returns exactly the p given (C15)
+TNewValid == /\ IsEvent("new_valid") /\ ~Ev.panicked /\ Ev.p_exact /\ Ev.len = 0 /\ Ev.empty
+             /\ UNCHANGED <<pp, cnt, pos, des>>
+
+TNext == TNew \/ TSmall \/ TAdd \/ TAddND \/ TNewInvalid \/ TNewValid
 
 TSpec == TInit /\ [][TNext]_tvars
 
